@@ -51,8 +51,19 @@ def run(ctx):
     core.lean_phase(ctx)
     rng = ctx.rng
     reqs, metas = [], []
+
+    def flush():
+        outs = ctx.driver.run(reqs) if reqs else []
+        for req, (op, replay, exp), out in zip(reqs, metas, outs):
+            ctx.count("model_requests")
+            if out.get("ok") != exp:
+                ctx.mismatch(op, replay, "recorded document" if op == "apply" else exp, out if ("err" in out or op != "apply") else "different document")
+        del reqs[:], metas[:]
+
     fam = schemas.family()
     for si in range(ctx.budget(18, 80)):
+        if len(reqs) >= 15000:
+            flush()     # keep memory bounded in long runs
         bundled = si < len(fam) or rng.random() < 0.6
         info = fam[si % len(fam)] if bundled else schemas.random_schema(rng)
         schema = info.schema
@@ -122,11 +133,7 @@ def run(ctx):
                     reqs.append({"op": "monitor", "k": "respects", "doc": info.node(d), "from": f, "to": t,
                                  "slice": info.slice(req), "steps": [info.step(tr.steps[0])]})
                     metas.append(("respects", dict(replay, step=tr.steps[0].to_json()), [True]))
-    outs = ctx.driver.run(reqs) if reqs else []
-    for req, (op, replay, exp), out in zip(reqs, metas, outs):
-        ctx.count("model_requests")
-        if out.get("ok") != exp:
-            ctx.mismatch(op, replay, "recorded document" if op == "apply" else exp, out if ("err" in out or op != "apply") else "different document")
+    flush()
     return ctx.finish(
         rule="a case is (schema, valid document, one replace-family operation with in-range pair-aligned positions and a "
              "schema-valid slice cut from another document / a valid node); bundled-family schemas (totality) and random "
